@@ -377,6 +377,22 @@ func c17Sequential(c *Ctx, i int, r *gen.R) {
 func c17FailClosed(c *Ctx, i int, r *gen.R) {
 	name := fmt.Sprintf("unknown-%d-%d-%s", c.Shard, i, r.Str(gen.FAscii|gen.FWide|gen.FHTML, 3))
 	how := "never registered"
+	if i%3 == 2 {
+		// unknown names that look like known ones: a registered name extended by a section, prefixed, in another
+		// case, with a space; sub-package names; the empty name.  None of them has been registered (checked in
+		// the listing), so each is as unknown as any other.
+		known := c17Builtins[r.Intn(len(c17Builtins))]
+		cand := gen.Pick(r, []string{known + ".compact", known + ".", "." + known, strings.ToUpper(known), known + " ", " " + known, "texttable." + known, known + "." + known, known + "/2", "csv", "json.x", "texttable", "", known[:len(known)-1]})
+		registered := false
+		for _, n := range decoration.RegisteredDecorationNames() {
+			if n == cand {
+				registered = true
+			}
+		}
+		if !registered {
+			name, how = cand, "never registered (looks like the registered name "+known+")"
+		}
+	}
 	if i%3 == 1 {
 		decoration.RegisterDecorationName(name, decoration.Decoration{})
 		how = "registered to the empty decoration"
